@@ -102,22 +102,32 @@ func main() {
 	}
 	exit := 0
 	for _, id := range props {
-		code := runProperty(p, id, *tier, *evDir, known, seed, *verbose)
+		var extras []extraResult
+		extrasOK := true
+		if *tier == "thorough" && *root == "/repo" {
+			extras, extrasOK = thoroughExtras(id, *knownF, *noSelf)
+		}
+		code := runProperty(p, id, *tier, *evDir, known, seed, *verbose, extras)
 		if code > exit {
 			exit = code
 		}
-		if code == 0 && *tier == "thorough" && *root == "/repo" {
-			code = thoroughExtras(id, *evDir, *knownF, *noSelf, seed)
-			if code > exit {
-				exit = code
+		if !extrasOK {
+			for _, e := range extras {
+				if !e.OK {
+					fmt.Fprintf(os.Stderr, "limecheck: self-test/%s %s: expected %s, got %s: %s\n", e.Kind, e.Name, e.Expect, e.Got, e.Out)
+				}
+			}
+			if exit == 0 {
+				exit = 2 // a broken checker, not a property violation
 			}
 		}
 	}
 	os.Exit(exit)
 }
 
-func runProperty(p *Prog, id, tier, evDir string, known *knownFile, seed int, verbose bool) (code int) {
+func runProperty(p *Prog, id, tier, evDir string, known *knownFile, seed int, verbose bool, extras []extraResult) (code int) {
 	rep := newReport(id, tier, p)
+	rep.Extras = extras
 	rep.Residue = residues[id]
 	defer func() {
 		if e := recover(); e != nil {
